@@ -45,6 +45,8 @@ pub type Sync = P2PGossipSync<Arc<Graph>, Arc<SimLookup>, Arc<NullLogger>>;
 enum Plan {
 	Sync(Result<TxOut, UtxoLookupError>),
 	Async,
+	/// answers `UtxoResult::Async` with a future that is already resolved
+	AsyncDone(Result<TxOut, UtxoLookupError>),
 }
 
 #[derive(Default)]
@@ -70,6 +72,11 @@ impl UtxoLookup for SimLookup {
 			Some(Plan::Async) => {
 				let f = UtxoFuture::new(notifier);
 				l.created.push((scid, f.clone()));
+				UtxoResult::Async(f)
+			},
+			Some(Plan::AsyncDone(r)) => {
+				let f = UtxoFuture::new(notifier);
+				f.resolve(r);
 				UtxoResult::Async(f)
 			},
 			None => {
@@ -133,6 +140,8 @@ pub enum UtxoPlan {
 	NoLookup,
 	Sync(UtxoAnswer),
 	Async,
+	/// `UtxoResult::Async` whose future resolved before it was handed back
+	AsyncDone(UtxoAnswer),
 }
 
 #[derive(Clone, Copy, Debug, PartialEq, Eq, Serialize, Deserialize)]
@@ -225,6 +234,22 @@ impl Action {
 			Action::Rgs { .. } => "Rgs",
 		}
 	}
+	/// Identity of a gossip message independent of the graph it is delivered to and of the entry
+	/// point details that do not change what is stored (None for non-message actions).
+	pub fn message_key(&self) -> Option<(usize, u64)> {
+		let (g, s) = match self {
+			Action::ChanAnn { g, spec, signed, .. } => (*g, format!("ca{}{}", serde_json::to_string(spec).ok()?, signed)),
+			Action::ChanUpd { g, spec, entry } => {
+				(*g, format!("cu{}{}", serde_json::to_string(spec).ok()?, *entry == CuEntry::Unsigned))
+			},
+			Action::NodeAnn { g, spec, entry } => {
+				(*g, format!("na{}{}", serde_json::to_string(spec).ok()?, *entry == NaEntry::Unsigned))
+			},
+			_ => return None,
+		};
+		Some((g, fnv(s.as_bytes())))
+	}
+
 	pub fn actor(&self) -> usize {
 		match self {
 			Action::ChanAnn { g, .. }
@@ -512,6 +537,9 @@ pub struct World {
 	/// development only (env GOSSIPSIM_SKIP_C17_1): do not evaluate the model-equality oracles, so
 	/// that sensitivity experiments can show what the model-independent oracles catch on their own
 	skip_model_oracles: bool,
+	/// replay of an order-mode trace: only messages that the trace delivers to *both* graphs are
+	/// enabled, so that a shrinker deleting a message from one feed removes it from the other too
+	pub order_allowed: Option<BTreeSet<u64>>,
 }
 
 fn set_clock(t: u64) {
@@ -549,6 +577,7 @@ impl World {
 			accepted_na: 0,
 			rejected: 0,
 			skip_model_oracles: std::env::var("GOSSIPSIM_SKIP_C17_1").is_ok(),
+			order_allowed: None,
 		}
 	}
 
@@ -566,6 +595,11 @@ impl World {
 
 	fn enabled(&self, a: &Action) -> bool {
 		let ng = self.gs.len();
+		if let (Some(allowed), Some((_, key))) = (&self.order_allowed, a.message_key()) {
+			if !allowed.contains(&key) {
+				return false;
+			}
+		}
 		match a {
 			Action::ChanAnn { g, spec, utxo, .. } => {
 				let _ = utxo;
@@ -734,12 +768,16 @@ impl World {
 		// what the chain source will say, if asked
 		let lookup = match utxo {
 			UtxoPlan::NoLookup => Lookup::None,
-			UtxoPlan::Sync(ans) => Lookup::Sync(self.uni.outcome(ans, &desc)),
+			UtxoPlan::Sync(ans) | UtxoPlan::AsyncDone(ans) => Lookup::Sync(self.uni.outcome(ans, &desc)),
 			UtxoPlan::Async => Lookup::Async,
 		};
 		let plan = match utxo {
 			UtxoPlan::NoLookup => None,
 			UtxoPlan::Sync(ans) => Some(Plan::Sync(self.uni.lookup_result(ans, desc.scid))),
+			UtxoPlan::AsyncDone(ans) => {
+				self.out.bump("probe:utxo_future_resolved_before_returned");
+				Some(Plan::AsyncDone(self.uni.lookup_result(ans, desc.scid)))
+			},
 			UtxoPlan::Async => Some(Plan::Async),
 		};
 		let gut = &mut self.gs[g];
@@ -1062,8 +1100,6 @@ impl World {
 		let uni = &self.uni;
 		let gut = &mut self.gs[g];
 		let waiting = gut.model.completed_waiting();
-		let held_before = gut.model.stat_held;
-		let _ = held_before;
 		let (acc, rej) = gut.model.process_completed(now, &|ans, d| uni.outcome(ans, d));
 		let s = &gut.sync;
 		let res = catch(|| s.get_and_clear_pending_msg_events().len());
@@ -1406,6 +1442,10 @@ impl World {
 			Ok((strict, bytes)) => {
 				self.out.bump(if strict { "probe:order_strict_eq_holds" } else { "probe:order_strict_eq_differs_in_list_order" });
 				self.out.bump(if bytes { "probe:order_bytes_equal" } else { "probe:order_bytes_differ_in_iteration_order" });
+				// development only: make the observation a failure so that it can be minimised
+				if !strict && std::env::var("GOSSIPSIM_STRICT_ORDER").is_ok() {
+					self.violate("C17-4x strict PartialEq (observation)", "`NetworkGraph ==` is false for two graphs with identical channels, updates and node data (NodeInfo::channels lists are in arrival order)".into());
+				}
 			},
 			Err(p) => self.panic_violation("graph comparison", p),
 		}
